@@ -10,6 +10,10 @@ ORD = {"Less": "L", "Equal": "E", "Greater": "G"}
 ORD_INT = {"L": -1, "E": 0, "G": 1}
 
 
+HOF_OPTION = ("is_some_and", "is_none_or", "map", "and_then", "filter", "map_or", "map_or_else", "unwrap_or_else", "inspect")
+_NOHOF = object()
+
+
 class Undecided(Exception):
     pass
 
@@ -346,6 +350,9 @@ class Interp:
                     if self.unknown_switch != "fork":
                         raise Undecided(f"switch on {x}")
                     tgts = [tb for _, tb in t["tg"]] + [t["else"]]
+                    live = [tb for tb in tgts if bbs[tb]["t"]["k"] != "unreachable" or bbs[tb]["s"]]
+                    if live:
+                        tgts = live       # an exhaustive match compiles its impossible default to `unreachable`: not a path
                     c = self._choose(len(tgts), f"switch@bb{b}")
                     self._assump.append(("switch", b, c))
                     b = tgts[c]
@@ -503,6 +510,11 @@ class Interp:
             if x and x[0] == "cf":
                 return x
             return UNK
+        # Option combinators taking a closure built in this body: interpret the closure (the payload of an unknown option is enumerated)
+        if "core::option::Option" in callee and last in HOF_OPTION and args and depth < 5:
+            hv = self._hof_option(last, args, heap, rel, depth, f"{fn['id'].split('::')[-1]}@L{t['ln']}")
+            if hv is not _NOHOF:
+                return hv
         tgt = t["res"] or callee
         if tgt in self.inline and tgt in self.F.fns and depth < 4:
             callee_fn = self.F.fns[tgt]
@@ -510,6 +522,66 @@ class Interp:
             r, _ = self._exec(callee_fn, cenv, heap, rel, depth + 1)
             return r
         return self._unknown_result(fn, t)
+
+    def _call_closure(self, cv, cargs, heap, rel, depth):
+        cv = strip_refs(cv) if cv and cv[0] == "ref" else cv
+        if not (cv and cv[0] == "closure" and cv[1] in self.F.fns):
+            return _NOHOF
+        cfn = self.F.fns[cv[1]]
+        cenv = {1: cv}
+        for i, a in enumerate(cargs):
+            cenv[2 + i] = a
+        r, _ = self._exec(cfn, cenv, heap, rel, depth + 1)
+        return r
+
+    def _hof_option(self, last, args, heap, rel, depth, where):
+        opt = args[0]
+        inner = strip_refs(opt) if opt and opt[0] == "ref" else opt
+        fpos = {"map_or": 2, "map_or_else": 2}.get(last, 1)
+        if len(args) <= fpos:
+            return _NOHOF
+        f = args[fpos]
+        fv = strip_refs(f) if f and f[0] == "ref" else f
+        if not (fv and fv[0] == "closure" and fv[1] in self.F.fns):
+            return _NOHOF
+        if inner and inner[0] == "some":
+            present, payload = True, inner[1]
+        elif inner == NONE:
+            present, payload = False, None
+        elif inner and inner[0] == "sym":
+            c = self._choose(2, f"opt:{where}")
+            self._assump.append(("optional", inner[1], bool(c)))
+            present, payload = bool(c), sym(inner[1] + ".Some")
+        else:
+            return _NOHOF
+        if last in ("unwrap_or_else",):
+            return payload if present else self._call_closure(fv, [], heap, rel, depth)
+        if not present:
+            if last == "is_some_and":
+                return ("bool", False)
+            if last == "is_none_or":
+                return ("bool", True)
+            if last in ("map", "and_then", "filter", "inspect"):
+                return NONE
+            if last == "map_or":
+                return args[1]
+            if last == "map_or_else":
+                return self._call_closure(args[1], [], heap, rel, depth)
+            return _NOHOF
+        if last == "filter":
+            keep = self._call_closure(fv, [ref(payload)], heap, rel, depth)
+            if keep and keep[0] == "bool":
+                return some(payload) if keep[1] else NONE
+            return _NOHOF
+        if last == "inspect":
+            self._call_closure(fv, [ref(payload)], heap, rel, depth)
+            return some(payload)
+        res = self._call_closure(fv, [payload], heap, rel, depth)
+        if res is _NOHOF:
+            return _NOHOF
+        if last == "map":
+            return some(res)
+        return res          # is_some_and / is_none_or / and_then / map_or / map_or_else
 
     def _value_name(self, fn, l, ln):
         """debug name of the user variable a temporary is (transitively) copied into, else a site name"""
